@@ -30,60 +30,158 @@ func main() {
 
 // ---- facts ----------------------------------------------------------------------------------
 
-// evalInt evaluates integer literals and products of them (`1024 * 1024 * 10`).
-func evalInt(x ast.Expr) (int64, bool) {
-	switch x := x.(type) {
-	case *ast.BasicLit:
-		if x.Kind == token.INT {
-			v, err := strconv.ParseInt(x.Value, 0, 64)
-			return v, err == nil
-		}
-	case *ast.ParenExpr:
-		return evalInt(x.X)
-	case *ast.BinaryExpr:
-		a, ok1 := evalInt(x.X)
-		b, ok2 := evalInt(x.Y)
-		if ok1 && ok2 {
-			switch x.Op {
-			case token.MUL:
-				return a * b, true
-			case token.ADD:
-				return a + b, true
-			case token.SHL:
-				return a << uint(b), true
-			}
+// nonErrConds returns the `if` conditions of a method that do not mention `err` (the value checks).
+func nonErrConds(f *hc.Facts, dir, fn string) []ast.Expr {
+	fd := f.FuncDecl(dir, fn)
+	if fd == nil {
+		return nil
+	}
+	var out []ast.Expr
+	for _, c := range hc.IfConds(fd.Body) {
+		if !strings.Contains(f.Src(c), "err") {
+			out = append(out, c)
 		}
 	}
-	return 0, false
+	return out
 }
 
-// boundsOf finds `<field> < lo || <field> > hi` in a method and emits hi (lo must be 0).
-func boundsOf(f *hc.Facts, lean, dir, fn, field string) {
+func at(xs []ast.Expr, i int) ast.Expr {
+	if i < len(xs) {
+		return xs[i]
+	}
+	return nil
+}
+
+// bufferOps lists, in source order, the calls `<buf>.<Method>(args…)` a method makes on its
+// *bin.Buffer parameter, as Lean tuples (method, kind, name, const) that the model interprets:
+//   ("PutLong","field","ID",0)       argument is the receiver's field ID
+//   ("PutInt","len","Messages",0)    argument is len(<recv>.Messages), possibly converted
+//   ("PutID","const","",1945237724)  argument is an integer constant
+//   ("PutBytes","expr","",0)         argument is some other expression
+//   ("Long","store","ID",0)          a read whose result is stored into the receiver's field ID
+//   ("Int","read","",0)              a read into a local
+//   ("ConsumeN","fields","Body,Bytes",0)  several arguments: their names joined by ','
+// Local variable names and formatting do not matter.
+func bufferOps(f *hc.Facts, lean, dir, fn string) {
 	fd := f.FuncDecl(dir, fn)
-	found := false
-	if fd != nil {
-		ast.Inspect(fd.Body, func(n ast.Node) bool {
-			be, ok := n.(*ast.BinaryExpr)
-			if !ok || be.Op != token.LOR || found {
-				return true
+	if fd == nil || fd.Body == nil || fd.Type.Params == nil || len(fd.Type.Params.List) == 0 || len(fd.Type.Params.List[0].Names) == 0 {
+		f.Missing(lean, dir+"."+fn+" not found")
+		return
+	}
+	buf := fd.Type.Params.List[0].Names[0].Name
+	recv := ""
+	if fd.Recv != nil && len(fd.Recv.List) > 0 && len(fd.Recv.List[0].Names) > 0 {
+		recv = fd.Recv.List[0].Names[0].Name
+	}
+	classify := func(x ast.Expr) (kind, name string, c string) {
+		for {
+			if p, ok := x.(*ast.ParenExpr); ok {
+				x = p.X
+				continue
 			}
-			l, ok1 := be.X.(*ast.BinaryExpr)
-			r, ok2 := be.Y.(*ast.BinaryExpr)
-			if !ok1 || !ok2 || l.Op != token.LSS || r.Op != token.GTR || f.Src(l.X) != field || f.Src(r.X) != field {
-				return true
+			if ce, ok := x.(*ast.CallExpr); ok && len(ce.Args) == 1 {
+				if id, ok := ce.Fun.(*ast.Ident); ok && (id.Name == "int32" || id.Name == "int" || id.Name == "int64" || id.Name == "uint32") {
+					x = ce.Args[0]
+					continue
+				}
 			}
-			lo, ok3 := evalInt(l.Y)
-			hi, ok4 := evalInt(r.Y)
-			if ok3 && ok4 && lo == 0 {
-				found = true
-				f.Raw(fmt.Sprintf("def %s : Nat := %d -- `%s` in %s.%s", lean, hi, f.Src(be), dir, fn))
+			break
+		}
+		if se, ok := x.(*ast.SelectorExpr); ok {
+			if id, ok := se.X.(*ast.Ident); ok && id.Name == recv {
+				return "field", se.Sel.Name, "0"
 			}
+		}
+		if ce, ok := x.(*ast.CallExpr); ok && len(ce.Args) == 1 {
+			if id, ok := ce.Fun.(*ast.Ident); ok && id.Name == "len" {
+				if se, ok := ce.Args[0].(*ast.SelectorExpr); ok {
+					if id, ok := se.X.(*ast.Ident); ok && id.Name == recv {
+						return "len", se.Sel.Name, "0"
+					}
+				}
+			}
+		}
+		if id, ok := x.(*ast.Ident); ok {
+			if v, ok := f.ConstInt(dir, id.Name); ok {
+				return "const", "", v
+			}
+		}
+		if bl, ok := x.(*ast.BasicLit); ok && bl.Kind == token.INT {
+			return "const", "", bl.Value
+		}
+		return "expr", "", "0"
+	}
+	// reads: `v, err := b.X()` … `recv.F = v` in the same block ⇒ stored into F
+	targets := map[token.Pos]string{}
+	ast.Inspect(fd.Body, func(n ast.Node) bool {
+		bs, ok := n.(*ast.BlockStmt)
+		if !ok {
 			return true
-		})
-	}
-	if !found {
-		f.Missing(lean, fmt.Sprintf("`%s < 0 || %s > N` not found in %s.%s", field, field, dir, fn))
-	}
+		}
+		var lastVar string
+		var lastPos token.Pos
+		for _, st := range bs.List {
+			as, ok := st.(*ast.AssignStmt)
+			if !ok || len(as.Rhs) != 1 || len(as.Lhs) == 0 {
+				continue
+			}
+			if ce, ok := as.Rhs[0].(*ast.CallExpr); ok {
+				if se, ok := ce.Fun.(*ast.SelectorExpr); ok {
+					if id, ok := se.X.(*ast.Ident); ok && id.Name == buf {
+						if v, ok := as.Lhs[0].(*ast.Ident); ok {
+							lastVar, lastPos = v.Name, ce.Pos()
+						}
+					}
+				}
+			}
+			if se, ok := as.Lhs[0].(*ast.SelectorExpr); ok && len(as.Lhs) == 1 {
+				if id, ok := se.X.(*ast.Ident); ok && id.Name == recv {
+					if v, ok := as.Rhs[0].(*ast.Ident); ok && v.Name == lastVar && lastVar != "" {
+						targets[lastPos] = se.Sel.Name
+					}
+				}
+			}
+		}
+		return true
+	})
+	var ops []string
+	ast.Inspect(fd.Body, func(n ast.Node) bool {
+		ce, ok := n.(*ast.CallExpr)
+		if !ok {
+			return true
+		}
+		se, ok := ce.Fun.(*ast.SelectorExpr)
+		if !ok {
+			return true
+		}
+		id, ok := se.X.(*ast.Ident)
+		if !ok || id.Name != buf {
+			return true
+		}
+		kind, name, c := "read", "", "0"
+		switch len(ce.Args) {
+		case 0:
+			if t, ok := targets[ce.Pos()]; ok {
+				kind, name = "store", t
+			}
+		case 1:
+			kind, name, c = classify(ce.Args[0])
+		default:
+			var names []string
+			for _, a := range ce.Args {
+				k, nm, _ := classify(a)
+				if k == "field" || k == "len" {
+					names = append(names, nm)
+				} else {
+					names = append(names, k)
+				}
+			}
+			kind, name = "fields", strings.Join(names, ",")
+		}
+		ops = append(ops, fmt.Sprintf("(%q, %q, %q, %s)", se.Sel.Name, kind, name, c))
+		return true
+	})
+	f.Raw(fmt.Sprintf("def %s : List (String × String × String × Int) := [%s] -- calls on the bin.Buffer in %s.%s, in source order", lean, strings.Join(ops, ", "), dir, fn))
 }
 
 func facts(f *hc.Facts) {
@@ -93,38 +191,58 @@ func facts(f *hc.Facts) {
 	f.Const("mtMsgContainerTypeID", "mt", "MsgContainerTypeID")
 	f.Const("mtGzipPackedTypeID", "mt", "GzipPackedTypeID")
 	f.Const("mtRPCResultTypeID", "mt", "RPCResultTypeID")
-	boundsOf(f, "messageEncodeMaxBytes", "proto", "Message.Encode", "m.Bytes")
-	boundsOf(f, "messageDecodeMaxBytes", "proto", "Message.Decode", "m.Bytes")
-	// GZIP.Decode: const maxUncompressedSize = 1024 * 1024 * 10; LimitReader(r, max); Total() >= max
-	fd := f.FuncDecl("proto", "GZIP.Decode")
-	limit, limOK := int64(0), false
-	limitReaderUses, cmpOp := false, ""
-	if fd != nil {
+	f.Const("mtMessageTypeID", "mt", "MessageTypeID")
+	f.Const("preallocateLimit", "bin", "PreallocateLimit")
+
+	// value checks, translated: the model calls these definitions
+	f.TranslateExpr("msgLenInvalidEnc", "proto", at(nonErrConds(f, "proto", "Message.Encode"), 0), hc.ExprOpt{})
+	f.TranslateExpr("msgLenInvalidDec", "proto", at(nonErrConds(f, "proto", "Message.Decode"), 0), hc.ExprOpt{})
+	uc := nonErrConds(f, "proto", "UnencryptedMessage.Decode")
+	f.TranslateExpr("unencAuthKeyBad", "proto", at(uc, 0), hc.ExprOpt{})
+	f.TranslateExpr("unencLenNegative", "proto", at(uc, 1), hc.ExprOpt{})
+	f.TranslateExpr("unencLenBeyond", "proto", at(uc, 2), hc.ExprOpt{})
+	// the container loop `for i := 0; i < n; i++`
+	var loopCond ast.Expr
+	if fd := f.FuncDecl("proto", "MessageContainer.Decode"); fd != nil {
 		ast.Inspect(fd.Body, func(n ast.Node) bool {
-			switch x := n.(type) {
-			case *ast.ValueSpec:
-				if len(x.Names) == 1 && x.Names[0].Name == "maxUncompressedSize" && len(x.Values) == 1 {
-					limit, limOK = evalInt(x.Values[0])
-				}
-			case *ast.CallExpr:
-				if f.Src(x.Fun) == "io.LimitReader" && len(x.Args) == 2 && f.Src(x.Args[1]) == "maxUncompressedSize" {
-					limitReaderUses = true
-				}
-			case *ast.BinaryExpr:
-				if f.Src(x.X) == "reader.Total()" && f.Src(x.Y) == "maxUncompressedSize" {
-					cmpOp = x.Op.String()
-				}
+			if fs, ok := n.(*ast.ForStmt); ok && loopCond == nil {
+				loopCond = fs.Cond
 			}
 			return true
 		})
 	}
-	if limOK {
-		f.Raw(fmt.Sprintf("def maxUncompressedSize : Nat := %d -- const maxUncompressedSize in proto.GZIP.Decode", limit))
-	} else {
-		f.Missing("maxUncompressedSize", "const maxUncompressedSize not found in GZIP.Decode")
+	f.TranslateExpr("containerLoopCond", "proto", loopCond, hc.ExprOpt{})
+	// GZIP.Decode: io.LimitReader(r, L) and the bomb check on reader.Total()
+	var limitArg, bombCond ast.Expr
+	var locals map[string]ast.Expr
+	if fd := f.FuncDecl("proto", "GZIP.Decode"); fd != nil {
+		locals = hc.LocalConsts(fd.Body)
+		ast.Inspect(fd.Body, func(n ast.Node) bool {
+			if ce, ok := n.(*ast.CallExpr); ok && f.Src(ce.Fun) == "io.LimitReader" && len(ce.Args) == 2 {
+				limitArg = ce.Args[1]
+			}
+			return true
+		})
+		for _, c := range hc.IfConds(fd.Body) {
+			if strings.Contains(f.Src(c), "Total()") {
+				bombCond = c
+			}
+		}
 	}
-	f.Bool("limitReaderUsesMax", limitReaderUses, "io.LimitReader(r, maxUncompressedSize) in GZIP.Decode")
-	f.Bool("bombCheckIsGE", cmpOp == ">=", "`reader.Total() "+cmpOp+" maxUncompressedSize` in GZIP.Decode")
+	f.TranslateExpr("gzipLimitArg", "proto", limitArg, hc.ExprOpt{Locals: locals})
+	f.TranslateExpr("gzipBomb", "proto", bombCond, hc.ExprOpt{Locals: locals})
+
+	// write / read orders, interpreted by the model
+	bufferOps(f, "opsMessageEncode", "proto", "Message.Encode")
+	bufferOps(f, "opsMessageDecode", "proto", "Message.Decode")
+	bufferOps(f, "opsContainerEncode", "proto", "MessageContainer.Encode")
+	bufferOps(f, "opsContainerDecode", "proto", "MessageContainer.Decode")
+	bufferOps(f, "opsResultEncode", "proto", "Result.Encode")
+	bufferOps(f, "opsResultDecode", "proto", "Result.Decode")
+	bufferOps(f, "opsUnencryptedEncode", "proto", "UnencryptedMessage.Encode")
+	bufferOps(f, "opsUnencryptedDecode", "proto", "UnencryptedMessage.Decode")
+	bufferOps(f, "opsGzipEncode", "proto", "GZIP.Encode")
+	bufferOps(f, "opsGzipDecode", "proto", "GZIP.Decode")
 }
 
 // ---- implementation adapters ------------------------------------------------------------
